@@ -12,6 +12,7 @@ import (
 	"crypto/sha256"
 	"encoding/hex"
 	"encoding/json"
+	"encoding/pem"
 	"fmt"
 	"math/big"
 
@@ -147,7 +148,7 @@ type rsaCase struct {
 	E       uint64 `json:"exponent"`
 }
 
-var patternNames = []string{"topbit+1", "0x80..", "0xff..", "drbg"}
+var patternNames = []string{"topbit+1", "0x80..", "0xff..", "drbg", "contains PEM blocks of a tiny key"}
 
 // modulus returns the big-endian magnitude of an odd integer of exactly `bits` bits.
 func modulus(bits, pattern int) []byte {
@@ -164,6 +165,16 @@ func modulus(bits, pattern int) []byte {
 		}
 	case 3:
 		copy(b, mc.Fill(seedBase, fmt.Sprintf("c18-modulus-%d", bits), n))
+	case 4:
+		// the modulus bytes contain text that a lenient reader would take for the key itself: a complete
+		// PEM block with the SubjectPublicKeyInfo of a tiny RSA key, a newline in front of it
+		copy(b, mc.Fill(seedBase, fmt.Sprintf("c18-modulus-pem-%d", bits), n))
+		small := handPSSSPKI([]byte{0xc5, 0x3b, 0x0f, 0x11}, 3)
+		legacy := tlv(0x30, append(append([]byte{}, mustHex("300d06092a864886f70d0101010500")...), tlv(0x03, append([]byte{0x00}, tlv(0x30, append(derUint([]byte{0xc5, 0x3b, 0x0f, 0x11}), derUint([]byte{3})...))...))...))
+		txt := "\n" + string(pem.EncodeToMemory(&pem.Block{Type: "PUBLIC KEY", Bytes: legacy})) + string(pem.EncodeToMemory(&pem.Block{Type: "PUBLIC KEY", Bytes: small}))
+		if len(txt)+8 < n {
+			copy(b[4:], txt)
+		}
 	}
 	top := uint((bits - 1) % 8) // position of the top bit inside byte 0
 	b[0] &= byte(1<<(top+1) - 1)
@@ -696,6 +707,11 @@ func main() {
 	// field of the key): TAB, VT, CR, NEL as the low byte, LF CR as the low two; on a subset of lengths
 	expsTail := []uint64{9, 11, 13, 133, 269, 0x0a0d, 65549, 0x2021, 0x3d3d, 0x0001_0000_0d}
 	var rsaCases []rsaCase
+	for _, b := range []int{2048, 2049, 3072, 4096} {
+		for _, e := range []uint64{3, 65537} {
+			rsaCases = append(rsaCases, rsaCase{Bits: b, Pattern: 4, E: e})
+		}
+	}
 	for _, b := range bitLens {
 		for p := 0; p < 4; p++ {
 			for _, e := range exps {
